@@ -48,40 +48,44 @@ Lemma rust_offsets :
   /\ blocking_line_offset = 1 /\ blocking_col_offset = 0.
 Proof. repeat split; reflexivity. Qed.
 
-(* the position a report carries, relative to the call node it comes from *)
-Definition at_call (q : rquirks) (k : kind) (r : rep) : Prop :=
+(* the position a report carries, relative to the call node it comes from; for unwrap / clone the message ends with the
+   stripped source line of the REPORTED row (get_line_context): the quoted snippet is the text of the reported line *)
+Definition at_call (q : rquirks) (ls : srclines) (k : kind) (r : rep) : Prop :=
   match k, r with
-  | KMethod sl sc ml name, (_, line, col) => line = (if q_chain_start_line q then sl else ml) + 1 /\ col = sc
-  | KCall sl sc path, (_, line, col) => line = sl + 1 /\ col = sc
+  | KMethod sl sc ml name, (_, line, col, msg) =>
+    line = (if q_chain_start_line q then sl else ml) + 1 /\ col = sc /\ exists prefix, msg = (prefix ++ context_of ls (line - 1))%string
+  | KCall sl sc path, (_, line, col, _) => line = sl + 1 /\ col = sc
   | _, _ => False
   end.
 
-Lemma emit_unwrap_at q o anc k cs r : In r (emit_unwrap q o anc k cs) -> at_call q k r.
+Lemma emit_unwrap_at q ls o anc k cs r : In r (emit_unwrap q ls o anc k cs) -> at_call q ls k r.
 Proof.
   unfold emit_unwrap. destruct k; try (intros []; fail).
   destruct (_ && _); [|intros []]. destruct (skipped _ _ _ _ _ _); [intros []|].
-  intros [<-|[]]. cbn. unfold report_line. destruct rust_offsets as [-> [-> _]]. split; [reflexivity|lia].
+  intros [<-|[]]. cbn [at_call]. unfold report_line, report_row. destruct rust_offsets as [-> [-> _]].
+  split; [reflexivity|]. split; [lia|]. eexists. f_equal. f_equal. lia.
 Qed.
 
-Lemma emit_clone_at q o anc k cs r : In r (emit_clone q o anc k cs) -> at_call q k r.
+Lemma emit_clone_at q ls o anc k cs r : In r (emit_clone q ls o anc k cs) -> at_call q ls k r.
 Proof.
   unfold emit_clone. destruct k; try (intros []; fail).
   destruct (_ && _); [|intros []]. destruct (classify_clone _ _ _ _ _) as [p|]; [|intros []].
   destruct (skipped _ _ _ _ _ _); [intros []|].
-  intros [<-|[]]. cbn. unfold report_line. destruct rust_offsets as [_ [_ [-> [-> _]]]]. split; [reflexivity|lia].
+  intros [<-|[]]. cbn [at_call]. unfold report_line, report_row. destruct rust_offsets as [_ [_ [-> [-> _]]]].
+  split; [reflexivity|]. split; [lia|]. eexists. f_equal. f_equal. lia.
 Qed.
 
-Lemma emit_blocking_at q o anc k cs r : In r (emit_blocking q o anc k cs) -> at_call q k r.
+Lemma emit_blocking_at q ls o anc k cs r : In r (emit_blocking q ls o anc k cs) -> at_call q ls k r.
 Proof.
   unfold emit_blocking. destruct k; try (intros []; fail).
   destruct (_ && _); [|intros []]. destruct (_ <? 2); [intros []|].
-  destruct (classify_path _ _) as [p|]; [|intros []]. destruct (inside_wrapper _); [intros []|].
+  destruct (classify_path _ _) as [p|]; [|intros []]. destruct (inside_wrapper _ _); [intros []|].
   destruct (skipped _ _ _ _ _ _); [intros []|].
-  intros [<-|[]]. cbn. destruct rust_offsets as [_ [_ [_ [_ [-> ->]]]]]. split; lia.
+  intros [<-|[]]. cbn [at_call]. destruct rust_offsets as [_ [_ [_ [_ [-> ->]]]]]. split; lia.
 Qed.
 
-Theorem rust_location_recorded q c file r : In r (report q c file) ->
-  exists t k cs, In t file /\ subnode (N k cs) t /\ at_call q k r.
+Theorem rust_location_recorded q ls c file r : In r (report q ls c file) ->
+  exists t k cs, In t file /\ subnode (N k cs) t /\ at_call q ls k r.
 Proof.
   unfold report, unwrap_report, clone_report, blocking_report. intros H.
   apply in_app_or in H. destruct H as [H|H]; [|apply in_app_or in H; destruct H as [H|H]];
@@ -92,13 +96,13 @@ Proof.
 Qed.
 
 (* with the flag off (what the property demands) the reported line is the line of the method name: the call *)
-Corollary rust_location_is_the_call q c file rule line col : q_chain_start_line q = false ->
-  In (rule, line, col) (report q c file) ->
+Corollary rust_location_is_the_call q ls c file rule line col msg : q_chain_start_line q = false ->
+  In (rule, line, col, msg) (report q ls c file) ->
   exists t k cs, In t file /\ subnode (N k cs) t /\
     match k with KMethod _ sc ml _ => line = ml + 1 /\ col = sc | KCall sl sc _ => line = sl + 1 /\ col = sc | _ => False end.
 Proof.
-  intros Hq H. destruct (rust_location_recorded _ _ _ _ H) as [t [k [cs [Ht [Hs Hat]]]]].
+  intros Hq H. destruct (rust_location_recorded _ _ _ _ _ H) as [t [k [cs [Ht [Hs Hat]]]]].
   exists t, k, cs. split; [exact Ht|]. split; [exact Hs|]. destruct k; cbn [at_call] in Hat; try contradiction.
-  - now rewrite Hq in Hat.
+  - rewrite Hq in Hat. tauto.
   - exact Hat.
 Qed.
